@@ -232,3 +232,6 @@ def _threshold_kept(ctx):
 OBLIGATIONS.append(('configured_threshold_and_fee_kept', _threshold_kept))
 
 REPLAY = {'*': replay_any}
+
+from checks import migrate as _migrate
+_migrate.attach(globals(), 'hub')
